@@ -26,6 +26,7 @@ WITNESS = [
     (r"uci_to_pgn", "board", "inkayaku_board", "c13_rejected_move.rs", "witness_uci_to_pgn"),
     (r"search_negamax_slice|search_quiescence_slice", "engine_core", "inkayaku_engine_core", "c09_interrupted_search.rs", "witness_c09"),
     (r"attacks::Bitboard::", "board", "inkayaku_board", "c05_check_detection.rs", "witness_c05"),
+    (r"hashtable::HashTable::", "append:engine_core/src/engine/table.rs", "inkayaku_engine_core", "c18_fifo_map.rs", "verif_witness_c18"),
     (r"lemma_shipped_thresholds|Heuristic::evaluate", "append:engine_core/src/engine/heuristic/simple.rs", "inkayaku_engine_core", "c10_fifty_move.rs", "verif_witness_c10"),
 ]
 
